@@ -125,3 +125,10 @@ struct Extra<QXmppMixIq> {
                 v.push_back({ u"action-%1-iq-%2"_s.arg(int(t)).arg(int(it)), [t, it](QXmppMixIq &m) { m.setType(it); m.setActionType(t); } });
     }
 };
+template<>
+struct Extra<Sasl2::Continue> {
+    static void add(States<Sasl2::Continue> &v)
+    {
+        v.push_back({ u"with-task"_s, [](Sasl2::Continue &c) { c.tasks = { u"base-task"_s }; } });
+    }
+};
